@@ -26,9 +26,23 @@ def _raises_parse_error(stmts) -> bool:
     return any(isinstance(s, ast.Raise) and s.exc is not None and "ParseError" in text(s.exc) for st in stmts for s in ast.walk(st))
 
 
+def _fm(ci: ClassInfo, name: str):
+    """the method with the class's private helpers inlined (the bookkeeping may live in a helper)"""
+    from .flat import flat
+
+    f = ci.own_func(name)
+    if f is None:
+        return None
+    cache = ci.project.__dict__.setdefault("_flat_parser_methods", {})
+    key = (ci.name, name)
+    if key not in cache:
+        cache[key] = flat(ci.project, ci.module, f, ci)
+    return cache[key]
+
+
 def open_container(ci: ClassInfo) -> Optional[str]:
     """name of the instance container that start() pushes to and end() pops from (aliases expanded)"""
-    st, en = ci.own_func("start"), ci.own_func("end")
+    st, en = _fm(ci, "start"), _fm(ci, "end")
     if st is None or en is None:
         return None
     sx, exn = Expander(st), Expander(en)
@@ -46,7 +60,7 @@ def open_container(ci: ClassInfo) -> Optional[str]:
 def p_rules(p: Project, rep: Report):
     ci = builder(p)
     rep.rule("P-R1", "every path in TreeBuilder.end to the underlying ET.TreeBuilder.end is dominated by a raise (ParseError) guarded by `no element open or innermost open tag != closing tag`; the open tags are kept in an instance container pushed in start() (with the very tag started) and popped in end(); every end the class issues goes through this override")
-    st, en, cl = ci.own_func("start"), ci.own_func("end"), ci.own_func("close")
+    st, en, cl = _fm(ci, "start"), _fm(ci, "end"), _fm(ci, "close")
     if en is None:
         rep.check("P-R1", "TreeBuilder.end:overridden", False, "TreeBuilder does not override end(): closing tags are forwarded to ET.TreeBuilder.end() unchecked, so mis-nested or stray end tags are silently accepted", ploc(p, ci.node))
     cont = open_container(ci)
@@ -412,28 +426,73 @@ def x_rules(p: Project, rep: Report):
     ok = bool(loops) and fx.t(loops[0].iter) == f"self.regex.finditer({params_of(feed0)[1]})"
     rep.check("X-R4", "feed:iterates-all-matches", ok, "" if ok else "feed() does not iterate self.regex.finditer(data)", ploc(p, feed0))
 
-    rep.rule("X-R6", "leaf vs aggregate is decided by presence of data only; every element is started once; a leaf is closed exactly once whether or not its end tag was matched; an empty aggregate with its end tag in the same match is closed; nothing else is closed in _start")
-    tagp, textp, closep = params_of(stf)[1:4]
-    cfg = CFG(stf)
-    starts = cfg.nodes_calling(lambda cc: text(cc.func) == "self.start" and cc.args and text(cc.args[0]) == tagp)
-    ends = cfg.nodes_calling(lambda cc: text(cc.func) == "self.end")
-    ok = bool(starts) and cfg.must_pass_through([cfg.exit.id], [s.id for s in starts])
-    rep.check("X-R6", "_start:starts-element", ok, "" if ok else "an element is not started on every path", ploc(p, stf))
-    for facts, want, label in (({textp: True}, 1, "leaf"), ({textp: False, closep: True}, 1, "empty-aggregate-with-end-tag"), ({textp: False, closep: False}, 0, "open-aggregate")):
-        from .cfg import assume
+    rep.rule("X-R6", "leaf vs aggregate is decided by presence of data only; every element is started once; a leaf is closed exactly once whether or not its end tag was matched, after its data was written; an empty aggregate with its end tag in the same match is closed; nothing else is closed in _start (decided path by path on the flattened method)")
+    from . import paths as PT6
+    from .flat import flat as _flat6
 
-        flt = assume(facts)
-        r_ = cfg.reachable(cfg.entry.id, edge_filter=flt)
-        live = [e for e in ends if e.id in r_]
-        # count ends on the (single) feasible path: at most one, and exactly `want`
-        twice = any((cfg.reachable(b, edge_filter=flt) & {x.id for x in live}) for e in live for b, _ in cfg.succ[e.id])
-        ok = (len(live) >= want) and not twice and (want > 0 or not live) and all(text(cc.args[0]) == tagp for e in live for cc in e.calls() if text(cc.func) == "self.end")
-        if want:
-            ok = ok and cfg.must_pass_through([cfg.exit.id], [e.id for e in live], edge_filter=flt)
-        rep.check("X-R6", f"_start:{label}", ok, f"for a {label} the element is closed {len(live)} time(s) on some path (expected exactly {want})" if not ok else "", ploc(p, stf))
-    datas_n = cfg.nodes_calling(lambda cc: text(cc.func) == "self.data")
-    ok = bool(datas_n) and all(cfg.dominated_by(e.id, [d.id for d in datas_n], edge_filter=assume({textp: True})) for e in ends if e.id in cfg.reachable(cfg.entry.id, edge_filter=assume({textp: True})))
-    rep.check("X-R6", "_start:data-before-close", ok, "" if ok else "a leaf is closed before its data is written", ploc(p, stf))
+    stff = _flat6(p, PARSER, stf, ci)
+    tagp, textp, closep = params_of(stf)[1:4]
+    spl = PT6.enumerate_paths(stff, None, Expander(stff))
+    scfg = spl.cfg
+
+    def calls_on(q, name):
+        out = []
+        for j, nid in enumerate(q.nodes):
+            n_ = scfg.nodes[nid]
+            if n_.stmt is None or n_.kind in ("join", "handlers"):
+                continue
+            for cc in n_.calls():
+                if text(cc.func) == name:
+                    out.append((j, cc))
+        return out
+
+    verdicts = {"starts-element": True, "leaf": True, "empty-aggregate-with-end-tag": True, "open-aggregate": True, "data-before-close": True}
+    undec6 = False
+    for q in spl:
+        if q.outcome not in ("return", "fall"):
+            continue
+        if PT6.implies(q.conds, PT6.atom("$never")) is True:
+            continue  # contradictory conditions: not a feasible path
+
+        def decide(a_):
+            if PT6.implies(q.conds, PT6.atom(a_, True)) is True:
+                return True
+            if PT6.implies(q.conds, PT6.atom(a_, False)) is True:
+                return False
+            return None
+
+        t_, c_ = decide(f"bool({textp})"), decide(f"bool({closep})")
+        starts = [x for x in calls_on(q, "self.start") if x[1].args and text(PT6.value_on_path(q, scfg, x[1].args[0], upto=x[0])) == tagp]
+        ends = calls_on(q, "self.end")
+        datas_ = calls_on(q, "self.data")
+        if len(starts) != 1:
+            verdicts["starts-element"] = False
+        if t_ is None:
+            undec6 = True
+            continue
+        if t_ is True:
+            if len(ends) != 1:
+                verdicts["leaf"] = False
+            if ends and not any(j < ends[0][0] for j, _c in datas_):
+                verdicts["data-before-close"] = False
+        else:
+            if c_ is None:
+                undec6 = True
+                continue
+            if c_ is True and len(ends) != 1:
+                verdicts["empty-aggregate-with-end-tag"] = False
+            if c_ is False and ends:
+                verdicts["open-aggregate"] = False
+        for j, cc in ends:
+            if not (cc.args and text(PT6.value_on_path(q, scfg, cc.args[0], upto=j)) in (tagp, closep)):
+                verdicts["leaf" if t_ else "empty-aggregate-with-end-tag"] = False
+    why6 = {"starts-element": "an element is not started exactly once on every path", "leaf": "a data element is not closed exactly once (with its own tag)", "empty-aggregate-with-end-tag": "an empty aggregate whose end tag was matched is not closed exactly once", "open-aggregate": "an aggregate without data and without matched end tag is closed by _start", "data-before-close": "a leaf is closed before its data is written"}
+    for k, ok in verdicts.items():
+        if ok and undec6 and k != "starts-element":
+            continue
+        rep.check("X-R6", f"_start:{k}", ok, why6[k] if not ok else "", ploc(p, stf))
+    if undec6:
+        rep.note("X-R6 undecided: some path of _start does not decide on the presence of data / of the matched end tag")
 
 
 def _following_literals(sub, idx) -> Optional[str]:
